@@ -284,3 +284,46 @@ def verdict_returns(body, variant):
                         # the block where this verdict is chosen (the `_0 = Ok(..)` may sit in a join block)
                         out.append(d[1])
     return sorted(set(out))
+
+
+def error_blocks(body):
+    """Blocks that run only while the body (or a Result-returning helper that canon inlined into it) is giving up
+    with an error: the residual arm of every `?`, and every block that builds a `Result::Err` value which is returned
+    or handed to a `?` by plain moves. Path rules stated "on the non-error paths" avoid these blocks; this also removes
+    the infeasible paths an inlined helper creates (helper builds Err -> join -> caller's `?` takes the Continue arm)."""
+    ba = BA.of(body)
+    tries = ba.try_sites()
+    out = {brk for (_, brk, _, _) in tries if brk is not None}
+    sinks = {0}
+    for (br, _, _, _) in tries:
+        l = op_local(body.blocks[br]["term"]["args"][0])
+        if l is not None:
+            sinks.add(l)
+    changed = True
+    while changed:
+        changed = False
+        for blk in body.blocks:
+            for s in blk["stmts"]:
+                if s["s"] == "assign" and not s["place"]["p"] and s["place"]["l"] in sinks and s["rv"]["k"] == "use":
+                    p = op_place(s["rv"]["op"])
+                    if p is not None and not p["p"] and p["l"] not in sinks:
+                        sinks.add(p["l"])
+                        changed = True
+    for i in sorted(ba.live):
+        if body.is_cleanup(i):
+            continue
+        for s in body.blocks[i]["stmts"]:
+            if (s["s"] == "assign" and not s["place"]["p"] and s["place"]["l"] in sinks and s["rv"]["k"] == "agg"
+                    and s["rv"].get("adt") == "core::result::Result" and s["rv"].get("variant") == "Err"):
+                out.add(i)
+    return out
+
+
+def dominates_nonerror(body, a, b, err=None):
+    """Block a lies on every non-error path from entry to block b (see error_blocks)."""
+    ba = BA.of(body)
+    if err is None:
+        err = error_blocks(body)
+    if b not in ba.live:
+        return False
+    return ba.path([0], [b], avoid=frozenset(err) | {a}, incl=True) is None
